@@ -415,6 +415,44 @@ Theorem C01_cached_marshalling_sends_stale_body :
 Proof. exact cached_marshalling_sends_stale_body. Qed.
 Print Assumptions C01_cached_marshalling_sends_stale_body.
 
+(* --- round 6 --- *)
+(* a cookie added to the Request between two executions is kept: the second execution carries the
+   request's cookies, the added ones, then the client's (as they are then), each once *)
+Theorem C01_reexecution_keeps_added_cookies : forall (A : Type) (rck cck added cck' : list A),
+  unmerge_cookies (length rck) (length cck) (rck ++ cck ++ added) ++ cck' = rck ++ added ++ cck'.
+Proof. exact reexecution_keeps_added_cookies. Qed.
+Print Assumptions C01_reexecution_keeps_added_cookies.
+
+Theorem C01_truncating_unmerge_drops_added_cookies : forall (A : Type) (rck cck added : list A),
+  unmerge_cookies_truncating (length rck) (rck ++ cck ++ added) = rck.
+Proof. exact truncating_unmerge_drops_added_cookies. Qed.
+Print Assumptions C01_truncating_unmerge_drops_added_cookies.
+
+(* the content type that selects the marshaller of a value is the content type that is sent
+   (header maps with distinct keys; a request-level Content-Type, if any, starts with a non-empty value) *)
+Theorem C01_marshaller_follows_the_sent_content_type : forall rh ch,
+  NoDup (map fst rh) ->
+  (forall v vs, hget rh content_type = Some (v :: vs) -> v <> []) ->
+  marshal_ct rh ch = header_get (merge_headers rh ch) content_type.
+Proof. exact marshaller_follows_the_sent_content_type. Qed.
+Print Assumptions C01_marshaller_follows_the_sent_content_type.
+
+Theorem C01_client_first_marshaller_mismatch :
+  exists rh ch, marshal_ct_client_first rh ch <> header_get (merge_headers rh ch) content_type.
+Proof. exact client_first_marshaller_mismatch. Qed.
+Print Assumptions C01_client_first_marshaller_mismatch.
+
+(* HTTP/3: a request is sent again as it is only when there is no body to lose *)
+Theorem C01_h3_replay_carries_the_described_body : forall has_body idem body,
+  h3_replayable has_body idem = true -> (has_body = false -> body = []) -> h3_replay_body body = body.
+Proof. exact h3_replay_carries_the_described_body. Qed.
+Print Assumptions C01_h3_replay_carries_the_described_body.
+
+Theorem C01_h3_replay_with_getbody_loses_the_body :
+  exists body, h3_replayable_getbody true true true = true /\ h3_replay_body body <> body.
+Proof. exact h3_replay_with_getbody_loses_the_body. Qed.
+Print Assumptions C01_h3_replay_with_getbody_loses_the_body.
+
 (* non-vacuity: a template with two holes, overlapping client/request keys and hostile values *)
 Example C01_nonvacuous :
   let ts := [TLit (bs "/users/"); THole (bs "id"); TLit (bs "/files/"); THole (bs "name")] in
